@@ -37,6 +37,7 @@ LEVEL_TEXT = (
     "(int.bit_length); one expression object using the engine-specific function is applied in both iteration "
     "engines."
     "  Leaves may hold a lazy stored payload (the public ChainRowIterable); after every prefix relation has been executed the root is executed once more and must still give the same rows."
+    "  The iteration engines are a subclass implementing apply_custom_unary_operation; every third program is topped with two sequences of three operations mixing user-defined ones (reverse, last row first, even positions, even values) with slices, sorts and selections."
 )
 LEVEL_NOTE = "trusts: reference evaluator ev_list; assumes the documented key-column precondition (P1) - cases violating it at a deduplication are discarded and counted"
 RULE = (
@@ -99,11 +100,89 @@ def classify(prog, leaves, rels, stats):
             stats.c[f"class:adjacent-{n[0]}-pair"] += 1
 
 
+_ENGINE_CLS = None
+
+
+def custom_ops_engine():
+    """An iteration engine subclass that executes user-defined operations (documented extension point:
+    apply_custom_unary_operation): reverse, last row first, rows with an even value, rows at even positions."""
+    global _ENGINE_CLS
+    if _ENGINE_CLS is None:
+        from lsst.daf.relation import iteration
+
+        from vf.checks.c04 import custom_classes
+
+        TotalSort, EvenFilter, Alternate, AtLeast, Reverse, DropRepeats, Rotate = custom_classes()
+
+        class CustomOpsEngine(iteration.Engine):
+            def apply_custom_unary_operation(self, operation, target):
+                rows = list(self.execute(target))
+                if isinstance(operation, Reverse):
+                    return iteration.RowSequence(rows[::-1])
+                if isinstance(operation, Rotate):
+                    return iteration.RowSequence(rows[-1:] + rows[:-1])
+                if isinstance(operation, Alternate):
+                    return iteration.RowSequence(rows[::2])
+                if isinstance(operation, EvenFilter):
+                    return iteration.RowSequence([r for r in rows if r[operation.tag] % 2 == 0])
+                return super().apply_custom_unary_operation(operation, target)
+
+        _ENGINE_CLS = CustomOpsEngine
+    return _ENGINE_CLS
+
+
+def custom_operation_sequences(case, prog, leaves, rels, expected, env, gcols, stats):
+    """User-defined operations between built-in ones on top of the program: whatever the factories merge, elide or reorder,
+    the engine subclass that implements the operations must return the rows of the applied sequence."""
+    from lsst.daf.relation import ColumnExpression, SortTerm
+
+    from vf.checks.c04 import custom_classes
+
+    TotalSort, EvenFilter, Alternate, AtLeast, Reverse, DropRepeats, Rotate = custom_classes()
+    t = gcols[0]
+    ref = ColumnExpression.reference(t)
+    steps = {
+        "reverse": (lambda r: Reverse().apply(r), lambda d: d[::-1]),
+        "rotate": (lambda r: Rotate().apply(r), lambda d: d[-1:] + d[:-1]),
+        "alternate": (lambda r: Alternate().apply(r), lambda d: d[::2]),
+        f"even[{t}]": (lambda r: EvenFilter(t).apply(r), lambda d: [x for x in d if x[t] % 2 == 0]),
+        "slice[1:3]": (lambda r: r[1:3], lambda d: d[1:3]),
+        "slice[0:2]": (lambda r: r[0:2], lambda d: d[0:2]),
+        "slice[1:]": (lambda r: r[1:], lambda d: d[1:]),
+        f"sort[-{t}]": (lambda r: r.sorted([SortTerm(ref, False)]), lambda d: sorted(d, key=lambda x: -x[t])),
+        f"sort[{t}]": (lambda r: r.sorted([SortTerm(ref, True)]), lambda d: sorted(d, key=lambda x: x[t])),
+        f"sel[{t}>=0]": (lambda r: r.with_rows_satisfying(ref.ge(ColumnExpression.literal(0))), lambda d: [x for x in d if x[t] >= 0]),
+    }
+    names = list(steps)
+    import hashlib
+
+    dg = hashlib.sha256(codec.digest(case).encode()).hexdigest()
+    for k in range(2):
+        seq = [names[int(dg[10 + 6 * k + 2 * i : 12 + 6 * k + 2 * i], 16) % len(names)] for i in range(3)]
+        if not any(n in ("reverse", "rotate", "alternate") or n.startswith("even") for n in seq):
+            seq[1] = ("reverse", "rotate", "alternate")[int(dg[8:10], 16) % 3]
+        rel, exp = rels[id(prog)], expected
+        what = f"{fmt(prog, leaves)} then " + " then ".join(seq)
+        try:
+            for n in seq:
+                rel = steps[n][0](rel)
+                exp = steps[n][1](exp)
+        except Exception as e:
+            raise Violation("build-raised", f"{type(e).__name__}: {e}; {what}", exc=e, node_kind="custom")
+        try:
+            got = env.run_iter(rel)
+        except Exception as e:
+            raise Violation("execute-raised", f"{type(e).__name__}: {e}; relation {rel}; {what}", exc=e)
+        if got != exp:
+            raise Violation("rows-differ", f"user-defined operations executed by an engine subclass: {what}; tree {rel}; expected {show_rows(exp)} got {show_rows(got)}")
+        stats.c["custom-operation-sequences"] += 1
+
+
 def run_case(case, stats):
     universe, leaves, prog = case
     memo = {}
     expected = ev_list(prog, leaves, check_fd=True, memo=memo)  # raises OutOfDomain for P1 violations
-    env = Env(leaves)
+    env = Env(leaves, iter_engine_cls=custom_ops_engine())
     try:
         try:
             rels = build_all(prog, env)
@@ -156,6 +235,8 @@ def run_case(case, stats):
         from vf.core.tags import sorted_tags
 
         gcols = sorted_tags(schema(prog, leaves))
+        if gcols and int(codec.digest(case)[2:4], 16) % 3 == 1:
+            custom_operation_sequences(case, prog, leaves, rels, expected, env, gcols, stats)
         if gcols and int(codec.digest(case)[2:4], 16) % 3 == 0:
             g = gcols[int(codec.digest(case)[4:6], 16) % len(gcols)]
             guarded = ("sel", ("sel", prog, ("ne", ("ref", g), ("lit", 0))), ("ge", ("fdiv", ("lit", 6), ("ref", g)), ("lit", 2)))
